@@ -947,6 +947,28 @@ def conformant_sequence(rng, pool):
     return tmpl
 
 
+def twin_config(cfg, which):
+    """Variant ``which`` of a configuration for the twin-sequence arm."""
+    cfg["pic_kind"] = "mid"
+    cfg["mix"] = None
+    if which == 1:
+        cfg["luma_exc"], cfg["cd_exc"] = ((1 << 10) - 1, (1 << 10) - 1) if cfg["luma_exc"] != (1 << 10) - 1 else (255, 255)
+        cfg["luma_off"], cfg["cd_off"] = 0, (cfg["cd_exc"] + 1) // 2
+    elif which == 2:
+        cfg["luma_exc"], cfg["cd_exc"] = (1 << 12) - 1, 255
+        cfg["luma_off"], cfg["cd_off"] = 0, 128
+    elif which == 3 and not cfg.get("qm"):
+        w2 = (cfg["wavelet"] + 1) % 7
+        if cfg["wavelet_ho"] == cfg["wavelet"]:
+            cfg["wavelet_ho"] = w2
+        cfg["wavelet"] = w2
+    elif which == 4:
+        cfg["color"] = [1, 2, 3] if cfg.get("color") != [1, 2, 3] else None
+    elif which == 5:
+        cfg["luma_off"] = 16 if cfg["luma_off"] != 16 else 0
+    return cfg
+
+
 class C10(UnitChanSpec):
     prop = "C10"
     title = "Concatenated sequences are validated and decoded independently"
@@ -980,8 +1002,16 @@ class C10(UnitChanSpec):
         cands = [(base + 7919 * j) % len(self.pool_cfgs) for j in range(4)]
         bad_at = rng.randrange(nseq) if rng.random() < 0.45 else None
         seqs = []
+        twins = rng.random() < 0.3
         for s in range(nseq):
             cfg = dict(self.pool_cfgs[rng.choice(cands)])
+            if twins:
+                # "twin" sequences: the same configuration with mid-grey pictures
+                # (all coefficients zero) and ONE thing changed from sequence to
+                # sequence (sample depth / slice layout / wavelet / colour spec):
+                # anything a decoder wrongly carries over from the previous
+                # sequence still fits, but gives different pictures
+                cfg = twin_config(dict(self.pool_cfgs[cands[0]]), rng.randrange(6) if s else 0)
             try:
                 pool = get_pool(cfg)
             except W.WorkloadError:
